@@ -18,6 +18,12 @@ Definition solution_copy_body_ref : list sk :=
 Definition factory_captures_ref : list (string * nat * list string * list string) :=
   [("DefaultSolverFactory", 1, [], []); ("DefaultSolveOptionsFactory", 1, [], [])].
 
+Definition model_read_writes_ref : list (string * string * string * string) :=
+  [("initialSolutionObserver", "OnEstimateIsViolated", "constraint", "none"); ("initialSolutionObserver", "OnSolutionConstraintChecked", "constraint", "none"); ("initialSolutionObserver", "OnStopConstraintChecked", "constraint", "none"); ("initialSolutionObserver", "OnVehicleConstraintChecked", "constraint", "none"); ("intParameterImpl", "Update", "delta", "none"); ("intParameterImpl", "Update", "iterations", "none"); ("intParameterImpl", "Update", "value", "none"); ("plane", "Slice", "modelStopWrappers", "none"); ("plane", "Swap", "modelStopWrappers", "none"); ("stopImpl", "cacheClosestStops", "closest", "none"); ("stopTimeExpressionImpl", "defaultTimeValue", "defaultValue", "once"); ("timeDependentDurationExpressionImpl", "updateMap", "elements", "none"); ("timeDependentDurationExpressionImpl", "updateMap", "endElement", "none"); ("timeDependentDurationExpressionImpl", "updateMap", "startElement", "none")].
+
+Definition model_field_reads_ref : list (string * string * string * string) :=
+  [("initialSolutionObserver", "Constraint", "constraint", "none"); ("intParameterImpl", "Update", "delta", "none"); ("intParameterImpl", "Update", "iterations", "none"); ("intParameterImpl", "Update", "value", "none"); ("intParameterImpl", "Value", "value", "none"); ("plane", "Less", "modelStopWrappers", "none"); ("plane", "Slice", "modelStopWrappers", "none"); ("plane", "Swap", "modelStopWrappers", "none"); ("stopImpl", "closestStops", "closest", "lock"); ("timeDependentDurationExpressionImpl", "ExpressionAtValue", "elements", "none"); ("timeDependentDurationExpressionImpl", "SetExpression", "startElement", "none"); ("timeDependentDurationExpressionImpl", "String", "elements", "none"); ("timeDependentDurationExpressionImpl", "String", "startElement", "none"); ("timeDependentDurationExpressionImpl", "ValueAtValue", "elements", "none"); ("timeDependentDurationExpressionImpl", "getElementAtValue", "elements", "none"); ("timeDependentDurationExpressionImpl", "getElementAtValue", "endElement", "none"); ("timeDependentDurationExpressionImpl", "getElementAtValue", "startElement", "none"); ("timeDependentDurationExpressionImpl", "updateMap", "elements", "none"); ("timeDependentDurationExpressionImpl", "updateMap", "endElement", "none"); ("timeDependentDurationExpressionImpl", "updateMap", "startElement", "none")].
+
 Definition parallel_solve_shared_ref : list (string * string) :=
   [("bestSolution", "plain"); ("bestSolutionMutex", "mutex"); ("cancel", "func"); ("ctx", "plain"); ("interpretedParallelSolveOptions", "plain"); ("iterationsLeft", "atomic"); ("parallelCount", "chan"); ("parallelRuns", "plain"); ("reportBestSolution", "func"); ("resultChannel", "chan"); ("solutions", "plain"); ("solutionsMutex", "mutex"); ("syncResultChannel", "chan"); ("totalIterations", "atomic"); ("waitGroup", "wg")].
 
